@@ -481,6 +481,21 @@ fn check_tool(
     Ok(())
 }
 
+/// `n` small inputs: the first 60 % carry -1, the rest +1 on [0,10) of chr1 (partial sums of the first
+/// group are negative, the total is not their clipped / adjusted / thresholded combination)
+fn many_inputs(n: usize, threshold: f32, clip: Option<i32>, adjust: Option<i32>) -> Case {
+    let mut inputs = vec![];
+    for i in 0..n {
+        let v = if i < n * 6 / 10 { -1.0 } else { 1.0 };
+        let mut vals = vec![V { s: 0, e: 10, v }];
+        if i % 7 == 0 {
+            vals.push(V { s: 20 + (i as u32 % 5), e: 40, v: 0.5 });
+        }
+        inputs.push(vec![(0u8, vals)]);
+    }
+    Case::Tool { inputs, sizes: vec![1000; 4], threshold, clip, adjust, threads: 2 }
+}
+
 impl Prop for C15 {
     type Case = Case;
     const ID: &'static str = "C15";
@@ -573,7 +588,12 @@ impl Prop for C15 {
             clip: None,
             adjust: None,
             threads: 2,
-        }]
+        },
+        // scale: more inputs on one chromosome than the tool opens at once (it merges in groups of
+        // < 1000 and then merges the partial results): clip, adjust and threshold still apply to the total
+        many_inputs(1100, -1000.0, None, Some(1)),
+        many_inputs(1100, 0.0, Some(40), None),
+        many_inputs(240, -1000.0, Some(3), Some(-1))]
     }
     fn check(case: &Case, obs: &mut Obs) -> Result<(), String> {
         match case {
